@@ -8,11 +8,9 @@ package main
 
 import (
 	"fmt"
-	"runtime/debug"
+	"os"
 	"sort"
 	"strings"
-	"sync"
-	"sync/atomic"
 	"time"
 
 	"verif/engine/enum"
@@ -291,6 +289,8 @@ type tally struct {
 	outcomes                 map[string]int64
 }
 
+func newTally() *tally { return &tally{outcomes: map[string]int64{}} }
+
 func unreservedOnly(s string) bool {
 	for i := 0; i < len(s); i++ {
 		c := s[i]
@@ -380,177 +380,142 @@ func outcomeLabels(c *Case, o observation, fails []failure, into map[string]int6
 	}
 }
 
-func main() {
-	r := report.Start("C10", "exploration")
-	// every execution allocates a few KB inside the client and keeps nothing; a small heap
-	// keeps the check usable on a machine that is short of memory
-	debug.SetGCPercent(200)
-	debug.SetMemoryLimit(768 << 20)
-	if r.Replay != "" {
-		var c Case
-		r.LoadReplay(&c)
-		fails, st := check(rtCache{}, &c)
-		fmt.Printf("replay base=%q pattern=%q params=%v query=%v transport=%q operation=%q host=%q\n  observed: %s\n",
-			c.Base.Render(), c.Pattern.Render(), c.Params, c.Query, c.Rt, c.Op, c.Host, st.first)
-		if len(fails) == 0 {
-			fmt.Println("  satisfies the oracle")
-		}
-		for _, f := range fails {
-			fmt.Printf("  class=%q %s\n", f.Class, f.What)
-			r.Fail(f.Class, f.What, c)
-		}
-		r.Eval(st.execs)
-		r.Nontrivial(2)
-		r.Sample(c)
-		r.Finish("replay of one case", false)
-	}
+// plan is everything the sweeps enumerate; it is a pure function of the tier, so
+// the parent and every worker process build the same one.
+type plan struct {
+	al        alphabet
+	vmaps     [][][]KV
+	small     [][][]KV
+	qQ        [][]QP
+	lists     [][]string
+	hosts     []string
+	sBases    []int
+	sPatterns []int
+	sQueries  [][]QP
+	shards    []shard
+}
 
-	al := alphabets(r.Thorough())
-	vmaps := make([][][]KV, len(patterns))
-	small := make([][][]KV, len(patterns))
+func buildPlan(thorough bool) *plan {
+	pl := &plan{al: alphabets(thorough)}
+	pl.vmaps = make([][][]KV, len(patterns))
+	pl.small = make([][][]KV, len(patterns))
 	for i, p := range patterns {
-		vmaps[i] = valueMaps(p, al)
-		small[i] = smallValueMaps(p)
+		pl.vmaps[i] = valueMaps(p, pl.al)
+		pl.small[i] = smallValueMaps(p)
 	}
-	qQ := queriesQ()
-	lists := schemeLists(3)
-	hosts := []string{"localhost", "example.com:8080", "[::1]:8443"}
-	sBases := []int{findBase("/"), findBase("/api/?x=1&y=2")}
-	sPatterns := []int{findPattern("/a"), findPattern("/a/{p}/b/{q}?z=3&x=4")}
-	sQueries := [][]QP{nil, {{Name: "x", Vals: q("9", "8")}}}
-
+	pl.qQ = queriesQ()
+	pl.lists = schemeLists(3)
+	pl.hosts = []string{"localhost", "example.com:8080", "[::1]:8443"}
+	pl.sBases = []int{findBase("/"), findBase("/api/?x=1&y=2")}
+	pl.sPatterns = []int{findPattern("/a"), findPattern("/a/{p}/b/{q}?z=3&x=4")}
+	pl.sQueries = [][]QP{nil, {{Name: "x", Vals: q("9", "8")}}}
 	const chunk = 1500
-	var shards []shard
 	for b := range bases {
 		for p := range patterns {
-			for lo := 0; lo < len(vmaps[p]); lo += chunk {
+			for lo := 0; lo < len(pl.vmaps[p]); lo += chunk {
 				hi := lo + chunk
-				if hi > len(vmaps[p]) {
-					hi = len(vmaps[p])
+				if hi > len(pl.vmaps[p]) {
+					hi = len(pl.vmaps[p])
 				}
-				shards = append(shards, shard{"P", b, p, lo, hi})
+				pl.shards = append(pl.shards, shard{"P", b, p, lo, hi})
 			}
-			shards = append(shards, shard{"Q", b, p, 0, len(qQ)})
-			shards = append(shards, shard{"X", b, p, 0, len(queriesX)})
+			pl.shards = append(pl.shards, shard{"Q", b, p, 0, len(pl.qQ)})
+			pl.shards = append(pl.shards, shard{"X", b, p, 0, len(queriesX)})
 		}
 	}
-	for _, b := range sBases {
-		for _, p := range sPatterns {
-			for lo := 0; lo < len(lists); lo += 8 {
+	for _, b := range pl.sBases {
+		for _, p := range pl.sPatterns {
+			for lo := 0; lo < len(pl.lists); lo += 8 {
 				hi := lo + 8
-				if hi > len(lists) {
-					hi = len(lists)
+				if hi > len(pl.lists) {
+					hi = len(pl.lists)
 				}
-				shards = append(shards, shard{"S", b, p, lo, hi})
+				pl.shards = append(pl.shards, shard{"S", b, p, lo, hi})
 			}
 		}
 	}
-	// the seed only rotates the order in which shards are visited and which cases are sampled
-	rot := int(((r.Seed % int64(len(shards))) + int64(len(shards))) % int64(len(shards)))
+	return pl
+}
 
-	var mu sync.Mutex
-	total := map[string]*tally{}
-	for _, n := range []string{"P", "Q", "S", "X"} {
-		total[n] = &tally{outcomes: map[string]int64{}}
+// runShard enumerates one shard, calling run for every case of it.
+func (pl *plan) runShard(sh shard, run func(c *Case)) {
+	pd := patterns[sh.pattern]
+	switch sh.sweep {
+	case "P":
+		for _, vm := range pl.vmaps[sh.pattern][sh.lo:sh.hi] {
+			for _, qq := range queriesP {
+				run(&Case{Host: hostP, Base: bases[sh.base], Pattern: pd.spec, Names: pd.names, Params: vm, Query: qq, Rt: rtP, Op: opP, Repeat: pl.al.repeat})
+			}
+		}
+	case "Q":
+		for _, vm := range pl.small[sh.pattern] {
+			for _, qq := range pl.qQ[sh.lo:sh.hi] {
+				run(&Case{Host: hostP, Base: bases[sh.base], Pattern: pd.spec, Names: pd.names, Params: vm, Query: qq, Rt: rtP, Op: opP, Repeat: 1})
+			}
+		}
+	case "X":
+		for _, vm := range pl.small[sh.pattern] {
+			for _, qq := range queriesX {
+				for _, rt := range schemesX {
+					for _, op := range schemesX {
+						run(&Case{Host: hostX, Base: bases[sh.base], Pattern: pd.spec, Names: pd.names, Params: vm, Query: qq, Rt: rt, Op: op, Repeat: 1})
+					}
+				}
+			}
+		}
+	case "S":
+		vm := pl.small[sh.pattern][0]
+		for _, rt := range pl.lists[sh.lo:sh.hi] {
+			for _, op := range pl.lists {
+				for _, h := range pl.hosts {
+					if h == hostP && len(rt) == 0 && len(op) == 1 && op[0] == "https" {
+						continue // this scheme pair on this host is the one sweeps P and Q use
+					}
+					for _, qq := range pl.sQueries {
+						run(&Case{Host: h, Base: bases[sh.base], Pattern: pd.spec, Names: pd.names, Params: vm, Query: qq, Rt: rt, Op: op, Repeat: 1})
+					}
+				}
+			}
+		}
 	}
+}
 
+func main() {
+	if len(os.Args) > 1 && os.Args[1] == "--child" {
+		childMain(os.Args[2:])
+		return
+	}
+	r := report.Start("C10", "exploration")
+	if r.Replay != "" {
+		replay(r)
+	}
+	started := time.Now()
 	// own time limit inside the tier budgets (quick 60 s, thorough 10 min including the build):
 	// when it trips the run ends as exhaustive:false, never as a failure
-	started := time.Now()
 	limit := 45 * time.Second
 	if r.Thorough() {
 		limit = 9 * time.Minute
 	}
-	var cut atomic.Bool
-	var shardsDone atomic.Int64
-	stop := func() bool {
-		if r.OutOfTime() || time.Since(started) > limit {
-			cut.Store(true)
-			return true
-		}
-		return false
-	}
-	enum.Parallel(len(shards), stop, func(i int) {
-		sh := shards[(i+rot)%len(shards)]
-		rc := rtCache{}
-		t := tally{outcomes: map[string]int64{}}
-		n := 0
-		run := func(c *Case) {
-			fails, st := check(rc, c)
-			t.evals += st.execs
-			t.cases++
-			if nontrivial(c) {
-				t.nontrivial++
-			}
-			outcomeLabels(c, st.first, fails, t.outcomes)
-			for _, f := range fails {
-				r.Fail(f.Class, f.What, *c)
-			}
-			n++
-			if (n+int(r.Seed))%997 == 3 && len(c.Params) > 0 && r.WantSample() {
-				r.Sample(map[string]any{"case": *c, "base_path": c.Base.Render(), "pattern": c.Pattern.Render(), "url": st.first.Full})
-			}
-		}
-		pd := patterns[sh.pattern]
-		switch sh.sweep {
-		case "P":
-			for _, vm := range vmaps[sh.pattern][sh.lo:sh.hi] {
-				for _, qq := range queriesP {
-					run(&Case{Host: hostP, Base: bases[sh.base], Pattern: pd.spec, Names: pd.names, Params: vm, Query: qq, Rt: rtP, Op: opP, Repeat: al.repeat})
-				}
-			}
-		case "Q":
-			for _, vm := range small[sh.pattern] {
-				for _, qq := range qQ[sh.lo:sh.hi] {
-					run(&Case{Host: hostP, Base: bases[sh.base], Pattern: pd.spec, Names: pd.names, Params: vm, Query: qq, Rt: rtP, Op: opP, Repeat: 1})
-				}
-			}
-		case "X":
-			for _, vm := range small[sh.pattern] {
-				for _, qq := range queriesX {
-					for _, rt := range schemesX {
-						for _, op := range schemesX {
-							run(&Case{Host: hostX, Base: bases[sh.base], Pattern: pd.spec, Names: pd.names, Params: vm, Query: qq, Rt: rt, Op: op, Repeat: 1})
-						}
-					}
-				}
-			}
-		case "S":
-			vm := small[sh.pattern][0]
-			for _, rt := range lists[sh.lo:sh.hi] {
-				for _, op := range lists {
-					for _, h := range hosts {
-						if h == hostP && len(rt) == 0 && len(op) == 1 && op[0] == "https" {
-							continue // this scheme pair on this host is the one sweeps P and Q use
-						}
-						for _, qq := range sQueries {
-							run(&Case{Host: h, Base: bases[sh.base], Pattern: pd.spec, Names: pd.names, Params: vm, Query: qq, Rt: rt, Op: op, Repeat: 1})
-						}
-					}
-				}
-			}
-		}
-		r.Eval(t.evals)
-		r.Nontrivial(t.nontrivial)
-		shardsDone.Add(1)
-		mu.Lock()
-		tt := total[sh.sweep]
-		tt.evals += t.evals
-		tt.cases += t.cases
-		tt.nontrivial += t.nontrivial
-		for k, v := range t.outcomes {
-			tt.outcomes[k] += v
-		}
-		mu.Unlock()
-	})
+	deadline := started.Add(limit)
 
-	r.Set("shards", map[string]int64{"total": int64(len(shards)), "completed": shardsDone.Load()})
+	// Phase H first (this process has built no request yet): histories of calls in ONE process.
+	hist := runHistories(r, deadline)
+
+	// Phase E: the per-case sweeps, sharded over single-threaded worker processes (no two
+	// requests are ever built concurrently in one process, every worker has a deterministic history).
+	pl := buildPlan(r.Thorough())
+	sw := runSweeps(r, pl, deadline)
+
+	r.Set("shards", map[string]int64{"total": int64(len(pl.shards)), "completed": sw.shardsDone})
 	all := map[string]int64{}
-	for name, t := range total {
+	for name, t := range sw.total {
 		r.Set("sweep_"+name, map[string]int64{"cases": t.cases, "executions": t.evals, "nontrivial": t.nontrivial})
 		for k, v := range t.outcomes {
 			all[k] += v
 		}
+	}
+	for k, v := range hist.outcomes {
+		all[k] += v
 	}
 	keys := make([]string, 0, len(all))
 	for k := range all {
@@ -569,23 +534,25 @@ func main() {
 	}
 	nvm := map[string]int{}
 	for i, p := range patterns {
-		nvm[p.spec.Render()] = len(vmaps[i])
+		nvm[p.spec.Render()] = len(pl.vmaps[i])
 	}
 	r.Set("base_paths", bs)
 	r.Set("patterns", ps)
 	r.Set("value_atoms", fmt.Sprintf("%q", atoms))
 	r.Set("value_maps_per_pattern_sweepP", nvm)
-	r.Set("single_values", len(al.single))
-	r.Set("value_pairs", len(al.pairs))
-	r.Set("caller_query_sets", map[string]int{"sweepP": len(queriesP), "sweepQ": len(qQ), "sweepS": len(sQueries), "sweepX": len(queriesX)})
-	r.Set("scheme_lists", len(lists))
-	r.Set("hosts", hosts)
-	r.Set("executions_per_case", fmt.Sprintf("every order of setting the path parameters x %d repeats (map iteration order is sampled, not owned)", al.repeat))
+	r.Set("single_values", len(pl.al.single))
+	r.Set("value_pairs", len(pl.al.pairs))
+	r.Set("caller_query_sets", map[string]int{"sweepP": len(queriesP), "sweepQ": len(pl.qQ), "sweepS": len(pl.sQueries), "sweepX": len(queriesX)})
+	r.Set("scheme_lists", len(pl.lists))
+	r.Set("hosts", pl.hosts)
+	r.Set("executions_per_case", fmt.Sprintf("every order of setting the path parameters x %d repeats (map iteration order is sampled, not owned)", pl.al.repeat))
+	r.Set("worker_processes", sw.workers)
 	r.Assume(
 		"the URL is read off the *http.Request returned by Runtime.CreateHttpRequest; nothing is sent",
 		"segments of the observed URL are the pieces of URL.EscapedPath() between '/', decoded with url.PathUnescape; the observed query is decoded with url.ParseQuery (standard library trusted)",
 		"Go's map iteration order over the path parameters is not owned: each multi-parameter case is executed in every setting order and repeated, and the expectation is order independent (simultaneous substitution)",
 		"static text of base paths and patterns contains no '%', no '.'/'..' segments, no empty segments and no fragment",
+		"histories: the solo result of a case is its result as the only request ever built in a fresh process; Runtime fields are not reassigned between calls",
 	)
-	r.Finish("sweep P: every base path x every pattern x every listed parameter map x 2 caller query sets; sweep Q: every base path x every pattern x 1-4 injection-minded parameter maps x every other caller query set; sweep S: every ordered pair of scheme lists (sequences of length 0-3 over http, https, ws, wss) x 3 hosts x 2 base paths x 2 patterns x 2 query sets; sweep X: every base path x every pattern x the same few parameter maps x 6 caller query sets x 7x7 scheme lists on a fourth host. The sweeps are disjoint by construction and no sweep repeats a case, so cases are distinct; an evaluation is one CreateHttpRequest call on the real client (a case with k>=2 parameters is executed k! x repeat times). Non-trivial = a placeholder of the pattern received a value that needs escaping (or is empty, '.' or '..'), or a query name is set at two or more of the three levels, or a scheme list with several entries is offered", !cut.Load())
+	r.Finish("phase H (histories in one process, serial): "+hist.rule+" Phase E (single cases, in single-threaded worker processes that reuse one Runtime per (host, base path, schemes)): sweep P: every base path x every pattern x every listed parameter map x 2 caller query sets; sweep Q: every base path x every pattern x 1-4 injection-minded parameter maps x every other caller query set; sweep S: every ordered pair of scheme lists (sequences of length 0-3 over http, https, ws, wss) x 3 hosts x 2 base paths x 2 patterns x 2 query sets; sweep X: every base path x every pattern x the same few parameter maps x 6 caller query sets x 7x7 scheme lists on a fourth host. The sweeps are disjoint by construction and no sweep repeats a case, so cases are distinct; an evaluation is one CreateHttpRequest call on the real client (a case with k>=2 parameters is executed k! x repeat times). Non-trivial = a placeholder of the pattern received a value that needs escaping (or is empty, '.' or '..'), or a query name is set at two or more of the three levels, or a scheme list with several entries is offered; a history is non-trivial when two of its steps set the same query name at different levels or with different values, or use the same pattern with different values", !sw.cut && !hist.cut)
 }
